@@ -190,7 +190,6 @@ func firstNonEmpty(a, b string) string {
 	return b
 }
 
-
 // parentIsMap: the container of the differing member (path taken from a jsonDiff message) is a map.
 func parentIsMap(s *amSchema, root *amType, diff string) bool {
 	p := diff
